@@ -10,17 +10,21 @@
    `Unsup` is answered for what is not modelled:
      - heredoc / nowdoc (any "<<<"), a leading "#!" line, a leading "<!DOCTYPE" (HTML lexer);
      - a byte >= 0x80 outside strings and comments (unicode.IsLetter/IsSpace tables, utf8 decoding);
-     - a quoted string that processStringInterpolation would rewrite or split: content containing '$'
-       or '@', or not valid UTF-8.
+     - `$` directly before a quoted string that contains '$' or '@'.
+   A quoted string whose content contains '$' or '@' (processStringInterpolation may rewrite it or turn it into
+   an interpolation token) is kept as one token with its span and line, type `T_FUZZY`, text left open.
    Columns (Token.Pos) are not modelled; the property speaks of spans, lines and text. *)
-From Coq Require Import List Arith Bool.
+From Coq Require Import List Arith NArith Bool.
 Import ListNotations.
 From V.gen Require Import TokenTable.
+
+Notation "a =T b" := (N.eqb a b) (at level 70).
+Notation "a <=T b" := (N.leb a b) (at level 70).
 
 Inductive outcome (A : Type) := Ok (a : A) | Crash | Unsup | OutOfFuel.
 Arguments Ok {A} a. Arguments Crash {A}. Arguments Unsup {A}. Arguments OutOfFuel {A}.
 
-Record tok := mkTok { ty : nat; lit : list nat; st : nat; en : nat; ln : nat }.
+Record tok := mkTok { ty : N; lit : list nat; st : nat; en : nat; ln : nat }.
 
 (* ---------- character classes (unicode.* restricted to ASCII) ---------- *)
 Definition is_digit (b : nat) : bool := (48 <=? b) && (b <=? 57).
@@ -32,6 +36,9 @@ Definition is_word (b : nat) : bool := is_letter b || is_digit b || (b =? 95).
 
 Fixpoint count_nl (l : list nat) : nat :=
   match l with [] => 0 | b :: r => (if b =? 10 then 1 else 0) + count_nl r end.
+
+(* input[a:b] *)
+Definition slice (s : list nat) (a b : nat) : list nat := firstn (b - a) (skipn a s).
 
 Fixpoint prefix (p l : list nat) : bool :=
   match p, l with
@@ -45,10 +52,14 @@ Fixpoint prefix (p l : list nat) : bool :=
 Fixpoint scan_squote (l : list nat) (k : nat) : option nat :=
   match l with
   | [] => None
-  | 92 :: ((n :: l') as t) =>                       (* backslash with a next byte *)
-      if (n =? 92) || (n =? 39) then scan_squote l' (k + 2) else scan_squote t (k + 1)
-  | 39 :: _ => Some (k + 1)
-  | _ :: t => scan_squote t (k + 1)
+  | b :: t =>
+      if b =? 92 then                                 (* backslash *)
+        match t with
+        | n :: l' => if (n =? 92) || (n =? 39) then scan_squote l' (k + 2) else scan_squote t (k + 1)
+        | [] => scan_squote t (k + 1)
+        end
+      else if b =? 39 then Some (k + 1)
+      else scan_squote t (k + 1)
   end.
 
 Fixpoint scan_dquote (l : list nat) (escaped : bool) (k : nat) : option nat :=
@@ -69,40 +80,20 @@ Fixpoint scan_btick (l : list nat) (k : nat) : option nat :=
 Fixpoint scan_bytelit (l : list nat) (k : nat) : option nat :=
   match l with
   | [] => None
-  | 39 :: _ => Some (k + 1)
-  | 92 :: t => match t with [] => None | _ :: t' => scan_bytelit t' (k + 2) end
-  | _ :: t => scan_bytelit t (k + 1)
-  end.
-
-(* UTF-8 validity as []rune(content) -> string(...) preserves it (Go's decoder: shortest form, no
-   surrogates, <= U+10FFFF) *)
-Definition cont (b : nat) : bool := (128 <=? b) && (b <=? 191).
-Fixpoint utf8_valid (fuel : nat) (l : list nat) : bool :=
-  match fuel with 0 => match l with [] => true | _ => false end | S f =>
-  match l with
-  | [] => true
   | b :: t =>
-    if b <? 128 then utf8_valid f t
-    else if (194 <=? b) && (b <=? 223) then
-      match t with c1 :: t' => cont c1 && utf8_valid f t' | _ => false end
-    else if (224 <=? b) && (b <=? 239) then
-      match t with
-      | c1 :: c2 :: t' =>
-          (if b =? 224 then (160 <=? c1) && (c1 <=? 191)
-           else if b =? 237 then (128 <=? c1) && (c1 <=? 159) else cont c1) && cont c2 && utf8_valid f t'
-      | _ => false end
-    else if (240 <=? b) && (b <=? 244) then
-      match t with
-      | c1 :: c2 :: c3 :: t' =>
-          (if b =? 240 then (144 <=? c1) && (c1 <=? 191)
-           else if b =? 244 then (128 <=? c1) && (c1 <=? 143) else cont c1) && cont c2 && cont c3 && utf8_valid f t'
-      | _ => false end
-    else false
-  end end.
+      if b =? 39 then Some (k + 1)
+      else if b =? 92 then match t with [] => None | _ :: t' => scan_bytelit t' (k + 2) end
+      else scan_bytelit t (k + 1)
+  end.
 
 (* would processStringInterpolation return the string token unchanged? *)
 Definition plain_string (content : list nat) : bool :=
-  negb (existsb (fun b => (b =? 36) || (b =? 64)) content) && utf8_valid (S (List.length content)) content.
+  negb (existsb (fun b => (b =? 36) || (b =? 64)) content).
+
+(* a string that may be rewritten (\$) or become an interpolation token: the model keeps its span and line
+   and leaves type and text open (type T_FUZZY: not a TokenType of the code; Run.v accepts STRING or
+   INTERPOLATION_TOKEN there) *)
+Definition T_FUZZY : N := 0%N.
 
 (* ---------- comments (handleCommentWithLineInfo) ---------- *)
 (* "//": bytes after the two slashes; result (consumed after "//", line delta).  The terminator \n or \r is
@@ -118,9 +109,11 @@ Fixpoint scan_line_comment (l : list nat) (k : nat) : nat * nat :=
 Fixpoint scan_block_comment (l : list nat) (k : nat) : nat :=
   match l with
   | [] => k                       (* pos = len: only when the input ends right after the opener *)
-  | [_] => k                      (* pos = len-1: loop condition false *)
-  | 42 :: ((47 :: _)) => k + 2
-  | _ :: t => scan_block_comment t (k + 1)
+  | b :: t =>
+      match t with
+      | [] => k                   (* pos = len-1: loop condition false *)
+      | c :: _ => if (b =? 42) && (c =? 47) then k + 2 else scan_block_comment t (k + 1)
+      end
   end.
 
 (* ---------- numbers (handleNumber) ---------- *)
@@ -135,7 +128,7 @@ Fixpoint scan_number (fuel : nat) (l : list nat) (prev : option nat) (k : nat) :
     else if is_delim r && negb (r =? 46) && negb ((r =? 43) || (r =? 45)) then Some k
     else if ((r =? 43) || (r =? 45)) &&
             match prev with Some p => negb ((p =? 101) || (p =? 69)) | None => false end then Some k
-    else if match t with 46 :: 46 :: _ => true | _ => false end then Some (k + 1)
+    else if match t with d1 :: d2 :: _ => (d1 =? 46) && (d2 =? 46) | _ => false end then Some (k + 1)
     else if (r =? 101) || (r =? 69) then
       match t with
       | s :: t' => if (s =? 43) || (s =? 45) then scan_number f t' (Some s) (k + 2) else scan_number f t (Some r) (k + 1)
@@ -162,33 +155,25 @@ Fixpoint classify_dec (l : list nat) (hasDot hasExp : bool) : option (bool * boo
     else classify_dec t hasDot hasExp
   end.
 
-Definition number_type (literal : list nat) : nat :=
+Definition number_type (literal : list nat) : N :=
   let okc r := is_digit r || (r =? 46) || (r =? 101) || (r =? 69) || (r =? 43) || (r =? 45) ||
                (r =? 120) || (r =? 88) || (r =? 98) || (r =? 66) in
+  let lead0 := match literal with z :: _ :: _ => z =? 48 | _ => false end in       (* len > 1 && lit[0] == '0' *)
+  let hexbin := match literal with z :: x :: _ :: _ =>
+                  (z =? 48) && ((x =? 120) || (x =? 88) || (x =? 98) || (x =? 66)) | _ => false end in
   if negb (forallb okc literal) then T_NUMBER
-  else match literal with
-  | 48 :: x :: _ :: _ =>
-      if (x =? 120) || (x =? 88) || (x =? 98) || (x =? 66) then T_NUMBER   (* 0x.. / 0b..: NUMBER whatever follows *)
-      else match classify_dec literal false false with
-           | None => T_NUMBER
-           | Some (_, true) => T_NUMBER
-           | Some (true, false) => T_FLOAT
-           | Some (false, false) => T_NUMBER                                 (* leading 0, length > 1: octal or not, NUMBER *)
-           end
-  | _ =>
-      match classify_dec literal false false with
-      | None => T_NUMBER
-      | Some (_, true) => T_NUMBER
-      | Some (true, false) => T_FLOAT
-      | Some (false, false) =>
-          match literal with 48 :: _ :: _ => T_NUMBER | _ => T_INT end
-      end
-  end.
+  else if hexbin then T_NUMBER                      (* 0x.. / 0b..: NUMBER whether well formed or not *)
+  else match classify_dec literal false false with
+       | None => T_NUMBER
+       | Some (_, true) => T_NUMBER                 (* scientific notation *)
+       | Some (true, false) => T_FLOAT
+       | Some (false, false) => if lead0 then T_NUMBER (* octal or not *) else T_INT
+       end.
 
 (* ---------- the token table (matchTokenWithDAG / matchKeywordWithDAG) ---------- *)
 (* longest literal that is a prefix of l; among equal literals the LAST definition wins (the trie node's
    token is overwritten) *)
-Definition best_match (ok : nat -> bool) (l : list nat) : option (nat * list nat) :=
+Definition best_match (ok : N -> bool) (l : list nat) : option (N * list nat) :=
   fold_left (fun best d =>
       let '(t, p) := d in
       if ok t && negb (match p with [] => true | _ => false end) && prefix p l then
@@ -198,12 +183,12 @@ Definition best_match (ok : nat -> bool) (l : list nat) : option (nat * list nat
         end
       else best) token_defs None.
 
-Definition is_kw_type (t : nat) : bool :=
-  ((T_KEYWORD_START <=? t) && (t <=? T_KEYWORD_END)) || ((T_VALUE_START <=? t) && (t <=? T_VALUE_END)).
+Definition is_kw_type (t : N) : bool :=
+  ((T_KEYWORD_START <=T t) && (t <=T T_KEYWORD_END)) || ((T_VALUE_START <=T t) && (t <=T T_VALUE_END)).
 
 (* matchLongestToken on a non-empty l whose first byte is ASCII: Some (Some (type, literal)) | Some None (no
    match) | None (a byte >= 0x80 decides the answer: not modelled) *)
-Definition match_longest (l : list nat) : option (option (nat * list nat)) :=
+Definition match_longest (l : list nat) : option (option (N * list nat)) :=
   match l with
   | [] => Some None
   | b :: _ =>
@@ -233,57 +218,71 @@ Fixpoint scan_ident (l : list nat) (k : nat) : option nat :=
 (* ---------- one iteration of the main loop ---------- *)
 (* what the iteration does at `rest` (non-empty): bytes consumed, line delta, token (type, literal) if one is
    appended, and what happens to lastWasNewline (None = untouched) *)
-Record act := mkAct { a_n : nat; a_dl : nat; a_tok : option (nat * list nat); a_lnl : option bool; a_php : bool }.
+Record act := mkAct { a_n : nat; a_dl : nat; a_tok : option (N * list nat); a_lnl : option bool; a_php : bool }.
 
-Definition emit (t : nat) (rest : list nat) (n dl : nat) (php : bool) : outcome act :=
+Definition emit (t : N) (rest : list nat) (n dl : nat) (php : bool) : outcome act :=
   Ok (mkAct n dl (Some (t, firstn n rest)) (Some false) php).
 
 (* HandleSpecialToken.  Some (outcome) = it produced a token (or the model gives up), None = `ok == false` *)
-Definition special (rest : list nat) (php : bool) : option (outcome act) :=
+Definition orelse {A} (x y : option A) : option A := match x with Some r => Some r | None => y end.
+
+(* HandleString for the three quote characters *)
+Definition sp_string (rest : list nat) (php : bool) : option (outcome act) :=
   match rest with
   | [] => None
   | b :: t =>
     let str (r : option nat) :=
       match r with
       | Some k => let n := S k in
-                  if plain_string (firstn (k - 1) t) then Some (emit T_STRING rest n (count_nl (firstn n rest)) php)
-                  else Some Unsup
+                  Some (emit (if plain_string (firstn (k - 1) t) then T_STRING else T_FUZZY) rest n
+                             (count_nl (firstn n rest)) php)
       | None => None
       end in
-    let after_string :=
-      (* handleByte *)
-      match rest with
-      | 98 :: 39 :: ((_ :: _) as t2) =>
-          match scan_bytelit t2 0 with
-          | Some k => Some (emit T_BYTE rest (2 + k) (count_nl (firstn (2 + k) rest)) php)
-          | None => None
-          end
-      | _ => None
-      end in
-    let after_byte :=
-      if hi b then None       (* neither comment nor number start; falls through to the main loop *)
-      else match rest with
-      | 47 :: 47 :: t2 => let '(k, dl) := scan_line_comment t2 0 in Some (emit T_COMMENT rest (2 + k) dl php)
-      | 47 :: 42 :: t2 => let n := 2 + scan_block_comment t2 0 in
-                          Some (emit T_MULTILINE_COMMENT rest n (count_nl (firstn n rest)) php)
-      | _ =>
+    if b =? 39 then str (scan_squote t 0)
+    else if b =? 34 then str (scan_dquote t false 0)
+    else if b =? 96 then str (scan_btick t 0)
+    else None
+  end.
+
+(* handleByte: b'..' needs at least three bytes *)
+Definition sp_byte (rest : list nat) (php : bool) : option (outcome act) :=
+  match rest with
+  | b :: q :: ((_ :: _) as t2) =>
+      if (b =? 98) && (q =? 39) then
+        match scan_bytelit t2 0 with
+        | Some k => Some (emit T_BYTE rest (2 + k) (count_nl (firstn (2 + k) rest)) php)
+        | None => None
+        end
+      else None
+  | _ => None
+  end.
+
+(* isCommentStart / isNumberStart *)
+Definition sp_comment_number (rest : list nat) (php : bool) : option (outcome act) :=
+  match rest with
+  | [] => None
+  | b :: t =>
+    if hi b then None       (* neither comment nor number start; falls through to the main loop *)
+    else
+      let cstart := match t with c :: _ => if b =? 47 then (if c =? 47 then 1 else if c =? 42 then 2 else 0) else 0 | [] => 0 end in
+      if cstart =? 1 then
+        let '(k, dl) := scan_line_comment (tl t) 0 in Some (emit T_COMMENT rest (2 + k) dl php)
+      else if cstart =? 2 then
+        let n := 2 + scan_block_comment (tl t) 0 in
+        Some (emit T_MULTILINE_COMMENT rest n (count_nl (firstn n rest)) php)
+      else
         if is_digit b || ((b =? 45) && match t with d :: _ => is_digit d | [] => false end) then
           match (if b =? 45 then scan_number (List.length t) t None 1 else scan_number (List.length rest) rest None 0) with
+          | Some 0 => None                                   (* `if pos <= start { return false }` *)
           | Some n => Some (emit (number_type (firstn n rest)) rest n 0 php)
           | None => Some Unsup
           end
         else None
-      end in
-    let continue_ (x : option (outcome act)) (k : option (outcome act)) := match x with Some r => Some r | None => k end in
-    if prefix [60; 60; 60] rest then Some Unsup                      (* heredoc / nowdoc *)
-    else
-      continue_
-        (if b =? 39 then str (scan_squote t 0)
-         else if b =? 34 then str (scan_dquote t false 0)
-         else if b =? 96 then str (scan_btick t 0)
-         else None)
-        (continue_ after_string after_byte)
   end.
+
+Definition special (rest : list nat) (php : bool) : option (outcome act) :=
+  if prefix [60; 60; 60] rest then Some Unsup                      (* heredoc / nowdoc *)
+  else orelse (sp_string rest php) (orelse (sp_byte rest php) (sp_comment_number rest php)).
 
 (* script-mode iteration, shared by Tokenize and TokenizeTemplate (php = true: inside <?php ... ?>) *)
 Definition script_step (rest : list nat) (php : bool) : outcome act :=
@@ -343,7 +342,7 @@ Fixpoint lex_loop (fuel : nat) (template php : bool) (rest : list nat) (pos line
           let acc' :=
             match a_tok a with
             | Some (t, l) =>
-                if (t =? T_NEWLINE) && lastnl then acc else mkTok t l pos (pos + a_n a) line :: acc
+                if (t =T T_NEWLINE) && lastnl then acc else mkTok t l pos (pos + a_n a) line :: acc
             | None => acc
             end in
           lex_loop f template (a_php a) (skipn (a_n a) rest) (pos + a_n a) (line + a_dl a)
@@ -362,16 +361,16 @@ Definition is_ident_token_lit (l : list nat) : bool :=   (* isValidIdentifierTok
   | b :: _ => (is_letter b || (b =? 95)) && forallb is_word l
   end.
 
-Definition dollar_mergeable (t : nat) : bool :=
-  (t =? T_IDENTIFIER) || ((T_KEYWORD_START <=? t) && (t <=? T_KEYWORD_END)) || (t =? T_NULL) || (t =? T_TRUE) ||
-  (t =? T_FALSE) || (t =? T_BOOL) || (t =? T_INT) || (t =? T_FLOAT) || (t =? T_STRING) || (t =? T_ARRAY).
+Definition dollar_mergeable (t : N) : bool :=
+  (t =T T_IDENTIFIER) || ((T_KEYWORD_START <=T t) && (t <=T T_KEYWORD_END)) || (t =T T_NULL) || (t =T T_TRUE) ||
+  (t =T T_FALSE) || (t =T T_BOOL) || (t =T T_INT) || (t =T T_FLOAT) || (t =T T_STRING) || (t =T T_ARRAY).
 
 (* the `\`name`\`name... merge loop: returns (literal so far, last token, remaining tokens) *)
 Fixpoint ns_more (fuel : nat) (ts : list tok) (litacc : list nat) (last : tok) : list nat * tok * list tok :=
   match fuel with 0 => (litacc, last, ts) | S f =>
   match ts with
   | s :: n :: r =>
-      if (ty s =? T_NAMESPACE_SEPARATOR) && is_ident_token_lit (lit n)
+      if (ty s =T T_NAMESPACE_SEPARATOR) && (st s =? en last) && (st n =? en s) && is_ident_token_lit (lit n)
       then ns_more f r (litacc ++ lit s ++ lit n) n
       else (litacc, last, ts)
   | _ => (litacc, last, ts)
@@ -384,19 +383,21 @@ Fixpoint pass1 (fuel : nat) (ts : list tok) : outcome (list tok) :=
   | [] => Ok []
   | t :: r =>
     let cons_ (x : tok) (o : outcome (list tok)) := match o with Ok l => Ok (x :: l) | e => e end in
-    if (ty t =? T_WHITESPACE) || (ty t =? T_COMMENT) || (ty t =? T_MULTILINE_COMMENT) then pass1 f r
-    else if ty t =? T_DOLLAR then
+    if (ty t =T T_WHITESPACE) || (ty t =T T_COMMENT) || (ty t =T T_MULTILINE_COMMENT) then pass1 f r
+    else if ty t =T T_DOLLAR then
       match r with
       | [] => Ok [t]                         (* [BOUNDS] `$` is the last token: fixed, kept as DOLLAR *)
       | n :: r' =>
-          if dollar_mergeable (ty n)
+          if ty n =T T_FUZZY then Unsup
+          else if (st n =? en t) && dollar_mergeable (ty n)        (* adjacent only (fix adf7e43) *)
           then cons_ (mkTok T_VARIABLE (36 :: lit n) (st t) (en n) (ln n)) (pass1 f r')
           else cons_ t (pass1 f r)
       end
-    else if ty t =? T_NAMESPACE_SEPARATOR then
+    else if ty t =T T_NAMESPACE_SEPARATOR then
       match r with
       | n :: r' =>
-          if ty n =? T_IDENTIFIER then cons_ (mkTok T_IDENTIFIER (lit t ++ lit n) (st t) (en n) (ln n)) (pass1 f r')
+          if negb (st n =? en t) then cons_ t (pass1 f r)             (* adjacent only (fix adf7e43) *)
+          else if ty n =T T_IDENTIFIER then cons_ (mkTok T_IDENTIFIER (lit t ++ lit n) (st t) (en n) (ln n)) (pass1 f r')
           else if is_ident_token_lit (lit n) then
             let '(l, last, rest) := ns_more (List.length r') r' (lit t ++ lit n) n in
             cons_ (mkTok T_IDENTIFIER l (st t) (en last) (ln last)) (pass1 f rest)
@@ -406,16 +407,16 @@ Fixpoint pass1 (fuel : nat) (ts : list tok) : outcome (list tok) :=
     else cons_ t (pass1 f r)
   end end.
 
-Definition no_semi_after_prev (t : nat) : bool :=      (* cannotAddSemicolon *)
-  existsb (Nat.eqb t)
+Definition no_semi_after_prev (t : N) : bool :=      (* cannotAddSemicolon *)
+  existsb (N.eqb t)
     [T_SEMICOLON; T_COMMA; T_NEWLINE; T_DOT; T_RBRACE; T_RBRACKET; T_RPAREN; T_OBJECT_OPERATOR; T_ARRAY_KEY_VALUE;
      T_COLON; T_ADD; T_SUB; T_MUL; T_QUO; T_REM; T_BIT_AND; T_BIT_OR; T_BIT_XOR; T_LAND; T_LOR; T_EQ; T_NE;
      T_EQ_STRICT; T_NE_STRICT; T_LT; T_GT; T_LE; T_GE; T_ASSIGN; T_ADD_EQ; T_SUB_EQ; T_MUL_EQ; T_QUO_EQ; T_REM_EQ;
      T_CONCAT_EQ; T_BIT_AND_EQ; T_BIT_OR_EQ; T_BIT_XOR_EQ; T_SHL_EQ; T_SHR_EQ; T_POWER_EQ; T_TERNARY;
      T_SCOPE_RESOLUTION; T_AT; T_NULLSAFE_CALL; T_NULL_COALESCE; T_INCR; T_DECR; T_SHL; T_SHR; T_POWER; T_NOT;
      T_BIT_NOT; T_SPACESHIP; T_NAMESPACE_SEPARATOR; T_DOLLAR; T_LBRACKET; T_LBRACE; T_LPAREN].
-Definition no_semi_before_next (t : nat) : bool :=     (* cannotAddSemicolonAfter *)
-  existsb (Nat.eqb t)
+Definition no_semi_before_next (t : N) : bool :=     (* cannotAddSemicolonAfter *)
+  existsb (N.eqb t)
     [T_LBRACKET; T_RBRACKET; T_LBRACE; T_RBRACE; T_LPAREN; T_RPAREN; T_ARRAY_KEY_VALUE; T_OBJECT_OPERATOR;
      T_NULLSAFE_CALL; T_NULL_COALESCE; T_COLON; T_COMMA; T_DOT; T_ADD; T_SUB; T_MUL; T_QUO; T_REM; T_BIT_AND;
      T_BIT_OR; T_BIT_XOR; T_LAND; T_LOR; T_EQ; T_NE; T_EQ_STRICT; T_NE_STRICT; T_LT; T_GT; T_LE; T_GE; T_ASSIGN;
@@ -428,7 +429,7 @@ Fixpoint pass3 (prev : option tok) (ts : list tok) : list tok :=
   match ts with
   | [] => []
   | t :: r =>
-    if ty t =? T_NEWLINE then
+    if ty t =T T_NEWLINE then
       let semi :=
         match prev, r with
         | Some p, n :: _ => negb (no_semi_after_prev (ty p)) && negb (no_semi_before_next (ty n))
@@ -444,9 +445,9 @@ Fixpoint pass4 (i : nat) (prev : option tok) (ts : list tok) : list tok :=
   | [] => []
   | t :: r =>
     let t' :=
-      if (ty t =? T_IDENTIFIER) && match r with n :: _ => ty n =? T_ASSIGN | [] => false end && (2 <? i) &&
+      if (ty t =T T_IDENTIFIER) && match r with n :: _ => ty n =T T_ASSIGN | [] => false end && (2 <? i) &&
          match prev with
-         | Some p => existsb (Nat.eqb (ty p)) [T_LBRACKET; T_LBRACE; T_LPAREN; T_SEMICOLON; T_COMMA]
+         | Some p => existsb (N.eqb (ty p)) [T_LBRACKET; T_LBRACE; T_LPAREN; T_SEMICOLON; T_COMMA]
          | None => false end
       then mkTok T_VARIABLE (lit t) (st t) (en t) (ln t) else t in
     t' :: pass4 (S i) (Some t) r
